@@ -172,4 +172,160 @@ theorem nonstring_name_refused (s : St) (x : Spec) (req : List Spec) (p : Nat) (
     (lookup1Py s x p (.other t) dflt).2 = .valueError ∧ (adapterHookPy s x p (.other t) dflt).2 = .valueError :=
   ⟨rfl, rfl, rfl, rfl, rfl, rfl⟩
 
+/-! ### a lazy `required` (an iterable whose iteration runs code)
+
+`lookup`, `lookupAll` and `subscriptions` take ANY iterable as `required` and turn it into a tuple.  Iterating it can mutate the
+registry (`changed()`: every cache dropped, a different `_uncached_*` function from then on).  The C code resolves `required` first and
+fetches the cache afterwards ("If `required` is a lazy sequence, it could have arbitrary side-effects, such as clearing our caches");
+the Python reference fetched the cache dictionary FIRST until repair 7ee6ae2 and then answered from that detached dictionary.  Both
+orders are modelled; the current one is proved fresh and equal between the twins, the old one is refuted by a kernel-checked witness. -/
+
+/-- a `required` argument: the tuple it resolves to, and what resolving it does to the registry (nothing, or a mutation after which
+`_uncached_lookup` is the function `u`) -/
+structure Lazy where
+  req : List Spec
+  mutates : Option (List Spec → Nat → String → Option Val)
+
+/-- `tuple(required)` / `PySequence_Tuple(required)` -/
+def St.iter (s : St) (l : Lazy) : St :=
+  match l.mutates with
+  | Option.none => s
+  | some u => { s.wiped with uncached := u }
+
+/-- C `_lookup`: name check, `PySequence_Tuple`, `_getcache`, probe -/
+def lookupLazyC (s : St) (l : Lazy) (p : Nat) (name : Name) (dflt : Bool) : St × Out :=
+  match name with
+  | .other _ => (s, .valueError)                      -- refused before `required` is touched
+  | .str _ => lookupC (s.iter l) l.req p name dflt
+
+/-- Python `LookupBase.lookup` since 7ee6ae2: `isinstance(name, str)`, `tuple(required)`, `_getcache`, probe -/
+def lookupLazyPy (s : St) (l : Lazy) (p : Nat) (name : Name) (dflt : Bool) : St × Out :=
+  match name with
+  | .other _ => (s, .valueError)
+  | .str _ => lookupPy (s.iter l) l.req p name dflt
+
+/-- Python `LookupBase.lookup` BEFORE 7ee6ae2: the cache dictionary of the state the call STARTED in is fetched first, probed after
+`tuple(required)`; what a miss stores goes into that dictionary (lost when the mutation detached it) -/
+def lookupLazyPyOld (s : St) (l : Lazy) (p : Nat) (name : Name) (dflt : Bool) : St × Out :=
+  match name with
+  | .other _ => (s, .valueError)
+  | .str n =>
+    let c := s.cache p n
+    let s' := s.iter l
+    match c l.req with
+    | some r => (s', answer r dflt)
+    | Option.none =>
+      let r := s'.uncached l.req p n
+      (if l.mutates.isSome then s' else s'.put p n l.req r, answer r dflt)
+
+/-- **C10_lazy_twin**: with a lazy `required` the twins agree — answer, exception, cache left behind, registry state -/
+theorem lazy_twin (s : St) (l : Lazy) (p : Nat) (name : Name) (dflt : Bool) :
+    lookupLazyC s l p name dflt = lookupLazyPy s l p name dflt := by
+  unfold lookupLazyC lookupLazyPy
+  cases name with
+  | other t => rfl
+  | str n => simp only [lookup_twin]
+
+/-- a non-string name is refused before `required` is iterated: the registry is NOT mutated -/
+theorem lazy_nonstring_untouched (s : St) (l : Lazy) (p : Nat) (t : Bool) (dflt : Bool) :
+    lookupLazyC s l p (.other t) dflt = (s, .valueError) ∧ lookupLazyPy s l p (.other t) dflt = (s, .valueError) := ⟨rfl, rfl⟩
+
+/-- **C05 for the interrupted call**: when resolving `required` mutates the registry, the call answers what the uncached lookup of
+the state AFTER the mutation gives (whatever was cached before), and that is what the cache holds afterwards -/
+theorem lazy_fresh (s : St) (l : Lazy) (u : List Spec → Nat → String → Option Val) (h : l.mutates = some u)
+    (p : Nat) (n : String) (dflt : Bool) :
+    (lookupLazyC s l p (.str n) dflt).2 = answer (u l.req p n) dflt ∧
+    (lookupLazyC s l p (.str n) dflt).1.cache p n l.req = some (u l.req p n) ∧
+    (lookupLazyC s l p (.str n) dflt).1.uncached = u := by
+  simp [lookupLazyC, lookupC, St.iter, h, St.wiped, St.put]
+
+/-- a `required` that mutates nothing behaves like the plain tuple -/
+theorem lazy_plain (s : St) (req : List Spec) (p : Nat) (name : Name) (dflt : Bool) :
+    lookupLazyC s ⟨req, Option.none⟩ p name dflt = lookupC s req p name dflt := by
+  unfold lookupLazyC lookupC
+  cases name <;> rfl
+
+/-- without a mutation the old Python order was right too (why no ordinary program noticed) -/
+theorem old_order_plain (s : St) (req : List Spec) (p : Nat) (name : Name) (dflt : Bool) :
+    lookupLazyPyOld s ⟨req, Option.none⟩ p name dflt = lookupPy s req p name dflt := by
+  unfold lookupLazyPyOld lookupPy
+  cases name with
+  | other t => rfl
+  | str n => cases h : s.cache p n req <;> simp [h, St.iter]
+
+/-- the state of the witness: `(provided 0, name "", required [1])` is cached as factory 7; the lazy `required` re-registers: 8 -/
+def exOld : St := { cache := fun p n k => if p = 0 ∧ n = "" ∧ k = [1] then some (some 7) else Option.none,
+                    uncached := fun _ _ _ => some 7, factoryNone := fun _ => false, stale := false, verifying := false }
+def exLazy : Lazy := ⟨[1], some (fun _ _ _ => some 8)⟩
+
+/-- **the order before repair 7ee6ae2 is refuted** (kernel-checked): the Python reference answered the replaced factory 7, the C
+accelerator the registered factory 8 — a stale answer (C05) and a divergence between the twins (C10) -/
+theorem old_order_stale :
+    (lookupLazyPyOld exOld exLazy 0 (.str "") false).2 = .val 7 ∧ (lookupLazyC exOld exLazy 0 (.str "") false).2 = .val 8 ∧
+    (lookupLazyPy exOld exLazy 0 (.str "") false).2 = .val 8 := by
+  refine ⟨?_, ?_, ?_⟩ <;> simp [lookupLazyPyOld, lookupLazyC, lookupLazyPy, lookupC, lookupPy, exOld, exLazy, St.iter, St.wiped, answer]
+
+/-! ### `lookupAll` / `subscriptions` (`_mcache` / `_scache`: per provided, keyed by the tuple; no name, no default) -/
+structure MSt where
+  cache : Nat → List Spec → Option (List Val)
+  uncached : List Spec → Nat → List Val                   -- `_uncached_lookupAll` / `_uncached_subscriptions`
+
+structure MLazy where
+  req : List Spec
+  mutates : Option (List Spec → Nat → List Val)
+
+def MSt.put (s : MSt) (p : Nat) (k : List Spec) (r : List Val) : MSt :=
+  { s with cache := fun p' k' => if p' = p ∧ k' = k then some r else s.cache p' k' }
+def MSt.iter (s : MSt) (l : MLazy) : MSt :=
+  match l.mutates with
+  | Option.none => s
+  | some u => { cache := fun _ _ => Option.none, uncached := u }
+
+/-- C `_lookupAll` / `_subscriptions`: `PySequence_Tuple`, `_subcache`, `PyDict_GetItem`, on a miss call and `PyDict_SetItem` -/
+def allC (s : MSt) (l : MLazy) (p : Nat) : MSt × List Val :=
+  let s' := s.iter l
+  match s'.cache p l.req with
+  | Option.none => let r := s'.uncached l.req p; (s'.put p l.req r, r)
+  | some r => (s', r)
+
+/-- Python `LookupBase.lookupAll` / `subscriptions` since 7ee6ae2 -/
+def allPy (s : MSt) (l : MLazy) (p : Nat) : MSt × List Val :=
+  let s' := s.iter l
+  match s'.cache p l.req with
+  | some r => (s', r)
+  | Option.none => let r := s'.uncached l.req p; (s'.put p l.req r, r)
+
+/-- the order before 7ee6ae2: `cache = self._mcache.get(provided)` first, `tuple(required)` second -/
+def allPyOld (s : MSt) (l : MLazy) (p : Nat) : MSt × List Val :=
+  let c := s.cache p
+  let s' := s.iter l
+  match c l.req with
+  | some r => (s', r)
+  | Option.none => let r := s'.uncached l.req p; (if l.mutates.isSome then s' else s'.put p l.req r, r)
+
+/-- **C10_lookupAll_twin / C10_subscriptions_twin** -/
+theorem all_twin (s : MSt) (l : MLazy) (p : Nat) : allC s l p = allPy s l p := by
+  unfold allC allPy
+  cases h : (s.iter l).cache p l.req <;> simp only [h]
+
+/-- the interrupted call answers the state after the mutation, and caches that -/
+theorem all_fresh (s : MSt) (l : MLazy) (u : List Spec → Nat → List Val) (h : l.mutates = some u) (p : Nat) :
+    (allC s l p).2 = u l.req p ∧ (allC s l p).1.cache p l.req = some (u l.req p) := by
+  simp [allC, MSt.iter, h, MSt.put]
+
+/-- a warm cache is served, a cold one filled: `lookupAll` twice = once (C05 on this entry point) -/
+theorem all_idem (s : MSt) (req : List Spec) (p : Nat) :
+    (allC (allC s ⟨req, Option.none⟩ p).1 ⟨req, Option.none⟩ p) = ((allC s ⟨req, Option.none⟩ p).1, (allC s ⟨req, Option.none⟩ p).2) := by
+  unfold allC
+  cases h : s.cache p req <;> simp [MSt.iter, h, MSt.put]
+
+def exOldAll : MSt := { cache := fun p k => if p = 0 ∧ k = [1] then some [7] else Option.none, uncached := fun _ _ => [7] }
+def exLazyAll : MLazy := ⟨[1], some (fun _ _ => [7, 8])⟩
+
+/-- the old order refuted for `lookupAll` / `subscriptions` -/
+theorem all_old_order_stale :
+    (allPyOld exOldAll exLazyAll 0).2 = [7] ∧ (allC exOldAll exLazyAll 0).2 = [7, 8] ∧ (allPy exOldAll exLazyAll 0).2 = [7, 8] := by
+  refine ⟨?_, ?_, ?_⟩ <;> simp [allPyOld, allC, allPy, exOldAll, exLazyAll, MSt.iter]
+
+
 end ZI.LookupTwin
